@@ -383,6 +383,40 @@ def shard_funding(ctx: Ctx) -> None:
         if actual_fee != fp.fee:
             ctx.violation("funded-psbt-fee-differs-from-extracted-transaction", f"reported fee {fp.fee}, transaction pays {actual_fee}", case)
         ctx.case("funding:signed", fl2.tx.serialize(include_witness=True), sample=case)
+
+    # ---- the money range of the *sum*: inputs worth more than 21M BTC, every single amount within it
+    from btclib.psbt.psbt_in import PsbtIn
+
+    MAX_SATS = 21 * 10**14
+    COIN = 10**8
+    plans = [([15 * 10**6 * COIN, 15 * 10**6 * COIN], [12 * 10**6 * COIN]), ([MAX_SATS, COIN // 100], [MAX_SATS - COIN // 10000]),
+             ([MAX_SATS, MAX_SATS], [1000]), ([20 * 10**6 * COIN] * 2, [20 * 10**6 * COIN, 20 * 10**6 * COIN - 10**6]),
+             ([MAX_SATS, MAX_SATS, MAX_SATS], [MAX_SATS, MAX_SATS]), ([MAX_SATS // 2 + 1] * 2, [MAX_SATS // 2]), ([MAX_SATS // 2] * 2, [MAX_SATS // 2]),
+             ([11 * 10**6 * COIN] * 2, [1 * 10**6 * COIN, 10 * 10**6 * COIN])]
+    for values, pays in plans:
+        for change in (change_scripts[0], change_scripts[1], None):
+            for rate in (FeeRate(sats_per_kvbyte=1000), FeeRate(sats_per_kvbyte=0), FeeRate(sats_per_kvbyte=10**6)):
+                ins = [PsbtIn(witness_utxo=TxOut(v, ScriptPubKey(b"\x00\x14" + bytes([40 + j]) * 20)), previous_tx_id=bytes([j + 1]) * 32, output_index=j)
+                       for j, v in enumerate(values)]
+                outs = [TxOut(v, ScriptPubKey(b"\x00\x14" + bytes([80 + j]) * 20)) for j, v in enumerate(pays)]
+                o = outcome(build_psbt, ins, outs, rate, change)
+                case = {"input_values": values, "payments": pays, "change_script": change.hex() if change else None, "rate_sat_per_kvB": rate.sats_per_kvbyte}
+                ctx.mon("funded-psbt-money-range")
+                ctx.case("funding:inputs-above-the-money-supply", ("range", tuple(values), tuple(pays), change, rate.sats_per_kvbyte))
+                if o[0] == "raise":
+                    if not is_lib_exc(o[1]):
+                        ctx.violation(f"build_psbt:foreign-exception:{type(o[1]).__name__}@{tb_origin(o[1])}", f"build_psbt raised {o[1]!r}", case)
+                    ctx.stats["funding:range-refused"] += 1
+                    continue
+                amounts = [x.amount for x in o[1].psbt.outputs]
+                case.update({"out_values": amounts, "fee": o[1].fee})
+                if any(not 0 <= a <= MAX_SATS for a in amounts) or sum(amounts) > MAX_SATS:
+                    ctx.violation("funded-psbt-outputs-outside-the-money-range",
+                                  f"build_psbt answered outputs {amounts}: total {sum(amounts)} against the {MAX_SATS} there can be", case)
+                elif sum(values) != sum(amounts) + o[1].fee:
+                    ctx.violation("funded-psbt-does-not-conserve-value", f"inputs {sum(values)} != outputs {sum(amounts)} + fee {o[1].fee}", case)
+                else:
+                    ctx.stats["funding:range-accepted-within-range"] += 1
     reach.stop()
     reach.report(ctx)
 
